@@ -236,7 +236,9 @@ def run_C04(tier, seed):
                  "also when four threads check one shared opened container / file at once, and through `jbk check`; `jbk check` of the "
                  "damaged file must not say ok either; every third alteration inside the hashed range of a content pack is also made in "
                  "place under a container, a file and a content pack that were opened and had checked true before: asked again, none "
-                 "may still answer true. "
+                 "may still answer true. Besides plain flips, ranges and multi-byte flips, 'crc-refit' alterations change one byte of a "
+                 "CRC-protected block and recompute that block's CRC (2 per block quick, up to every byte thorough), so that only the "
+                 "pack's blake3 can notice (not applied to the check-kind byte, see DESIGN section 12). "
                  "Non-trivial = the damage changed >= 1 covered byte. Distinct = (specimen, file, damage).",
                  ["which bytes a checksum covers comes from the independent decoder (harness/src/indep.rs)"])
     for profile in ("debug", "release"):
